@@ -131,3 +131,11 @@ def run(ctx, rep):
                     vals = [const_f64(y) for y in subterms(dflt[0]) if const_f64(y) is not None]
                     detail = f'Some(w) => w, None => Weather::default() = {vals}'
         rep.ob('R12.5', 'absent-weather-is-default', ok, detail)
+    # shared mechanism: the clock-time conversion wraps into [0, 24) after the offset and cannot fail (R11.4, R11.7)
+    from . import shared, c11 as _c11
+    shared.include(ctx, rep, _c11.run, {'R11.4', 'R11.7'}, why='every reported hour becomes a valid clock time')
+    # the policy layer's scope and invalid-gate rules are necessary here too: a policy that replaces a *valid* time, or a
+    # time outside its scope, makes that time depend on parameters (the other prayer's angle, the nearest latitude) it
+    # is documented not to depend on
+    from . import c08 as _c08
+    shared.include(ctx, rep, _c08.run, {'R8.1', 'R8.2'}, why='policies change only what they name')
